@@ -7,12 +7,7 @@ import layoutlib as L
 import vlib
 
 MANIFEST = {
-    "text": "Pairs of generated fragments over disjoint slot sets are analysed separately and together behind a dispatcher (two dispatcher "
-            "shapes); an injective renumbering of the slot constants (small to small, small to > 2^128, changing PUSH widths) is applied "
-            "to one fragment. The four layouts of each case are compared INSIDE Coq: layout(A+B) must be the sorted union of layout(A) "
-            "and layout(B), and layout(rename A) must be the renamed layout(A) with unchanged types and offsets. The per-stage lemmas "
-            "(passes are equivariant under renaming of slot constants away from the hash table; unification of variable-disjoint "
-            "judgement sets is the disjoint union) are not all proved yet: the property is decided by this search (partial).",
+    "text": "Pairs of generated fragments over disjoint slot sets are analysed separately and together behind a dispatcher (two dispatcher shapes); an injective renumbering of the slot constants (small to small, small to > 2^128, changing PUSH widths) is applied to one fragment. The four layouts of each case are compared INSIDE Coq: layout(A+B) must be the sorted union of layout(A) and layout(B), and layout(rename A) must be the renamed layout(A) with unchanged types and offsets. Registration is modelled (Register.v) and proved for ALL value lists: every sub-term gets a variable (register_covers_subterms), the same stable value shares one typed node (register_stable_shared), a value without stable part gets only fresh variables (register_unstable_fresh), and two registered values without a common stable sub-term share no type variable (register_disjoint) -- so evidence of unrelated slots lives on disjoint variables; invariance under permutation of the value list is proved on stable sub-values (register_order_partial) and evaluated in full on the implementation (check_order). Equivariance of unification under renaming is not proved: decided by the metamorphic search (partial).",
     "note": "Trusted: Coq kernel for the comparison; the fragment generator and renamer (tools/gen.py); harness.",
     "technique": "metamorphic search (union of independent fragments, injective slot renaming) with the comparison evaluated inside Coq; "
                  "stage lemmas partial",
@@ -43,11 +38,12 @@ def check(ctx):
         var_r = [gen.Var(v.kind, rho[v.slot], v.access, keys=v.keys, value=v.value, fields=v.fields, style=v.style) for v in va]
         car = gen.compile_layout(var_r, rng, dispatcher=disp)
         cases.append((ca, cb, cab, car, rho))
-    if ctx.replay_in:
+    stage = vlib.stage_replay(ctx)
+    if ctx.replay_in and not stage:
         r = json.load(open(ctx.replay_in))["replay"]
         cases = [(bytes.fromhex(r["a"]), bytes.fromhex(r["b"]), bytes.fromhex(r["ab"]), bytes.fromhex(r["renamed"]),
                   {int(k): v for k, v in r["rho"].items()})]
-    if hb:
+    if hb and not stage:
         flat = [c for case in cases for c in case[:4]]
         out = L.analyze(ctx, hb, flat)
         terms = []
@@ -65,5 +61,8 @@ def check(ctx):
                          "layouts": [o[:500] for o in out[4 * idx:4 * idx + 4]]})
         ctx.coverage.update({"evaluations": len(cases), "distinct_nontrivial": len(set(c[2] for c in cases)),
                              "analyses_run": len(flat)})
+    import p_tc_stages as TS
+    TS.suite(ctx, translate=False, parts=("register", "order"), codes={"register": {10, 11, 13, 14}, "order": {15}}, cov_key="tc_stages",
+             only=r"^(is_stable|register_)")
     return vlib.finish(ctx, rule="(fragment A, fragment B, A+B, renamed A) quadruples over disjoint slot sets; all non-trivial; distinct = "
                        "distinct combined bytecodes", samples=[c[2].hex()[:100] for c in cases[:2]])
